@@ -151,13 +151,30 @@ def _unpack(target: ast.Tuple, value: ast.AST, env: dict):
             env[tgt.id] = _sub(value, idx=i - len(elts))
 
 
+MUTATORS = {"append", "extend", "add", "update", "pop", "popitem", "insert", "remove", "clear", "setdefault", "discard", "sort", "reverse"}
+
+
 def _assigned_names(stmt) -> set:
+    """Names whose value may change when `stmt` runs: rebinding, element / attribute stores, mutating method calls."""
     out = set()
     for n in ast.walk(stmt):
         if isinstance(n, ast.Name) and isinstance(n.ctx, ast.Store):
             out.add(n.id)
         if isinstance(n, (ast.FunctionDef, ast.ClassDef)):
             out.add(n.name)
+        if isinstance(n, ast.Subscript) and isinstance(n.ctx, (ast.Store, ast.Del)):
+            # (an attribute store patches the object but the name still denotes what it was constructed as)
+            b = n.value
+            while isinstance(b, (ast.Subscript, ast.Attribute)):
+                b = b.value
+            if isinstance(b, ast.Name):
+                out.add(b.id)
+        if isinstance(n, ast.Call) and isinstance(n.func, ast.Attribute) and n.func.attr in MUTATORS:
+            b = n.func.value
+            while isinstance(b, (ast.Subscript, ast.Attribute)):
+                b = b.value
+            if isinstance(b, ast.Name):
+                out.add(b.id)
     return out
 
 
